@@ -19,6 +19,10 @@ Input classes (all general, none tied to a known defect):
     digit offsets (`_huge`).
 """
 from .common import *
+
+# other public routes to this property's operations (check.py step 2d): the neighbour generator's requests whose
+# operation matches are part of this run, answered by the neighbour's harness bin
+NEIGHBOURS = {"C17": r"sh[lr]_", "C18": r"nt_((checked_|wrapping_)?sh[lr]|(un)?signed_sh[lr]|rotate_(left|right))"}
 import re
 
 OPS = ["overflowing_shl", "overflowing_shr", "checked_shl", "checked_shr", "wrapping_shl", "wrapping_shr",
